@@ -298,6 +298,11 @@ def part_registry(ctx, lines, checks, spec_fail):
 # store_metadata histories
 def container_values(rng):
     """user-section values of every shape"""
+    if rng.random() < 0.25:
+        # the edge of the value range: non-finite floats, signed zero, subnormals, the largest
+        # doubles, 64-bit integers, blank texts, sequences holding them
+        pool = base.EDGE_VALUES["user"]
+        return pool[rng.randrange(len(pool))]
     x = rng.choice([2.5, 3, 0, 17, -0.125, True])
     return rng.choice([
         x, [x], [[x]], [x, x], [[x, x]], [[x], [x]], [], (x,), (x, x, x),
@@ -331,8 +336,10 @@ def related_value(rng, prev):
                      if a.ndim == 1 else a.T.tolist()]
     elif isinstance(prev, (bool, int, float, np.number, np.bool_)):
         x = prev.item() if hasattr(prev, "item") else prev
+        # (integers beyond 64 bit have no HDF5 type: h5py refuses them, nothing is written)
+        whole = x == x and abs(x) < 2 ** 63 and float(x) == int(x)
         opts += [[x], [[x]], [x, x], float(x), np.array([x]), [], bool(x) if x in (0, 1) else x,
-                 int(x) if float(x) == int(x) else x, np.array([[x, x]])]
+                 int(x) if whole else x, np.array([[x, x]])]
     elif isinstance(prev, str):
         opts += [[prev], prev + " ", prev.upper(), [prev, prev]]
     elif isinstance(prev, (list, tuple)) and prev and isinstance(prev[0], str):
@@ -376,7 +383,7 @@ def gen_store_history(ctx, dfn):
                 if sec != "user":
                     # the related value must still be acceptable for the converter
                     a, _ws, _w = base.set_primary(sec, key, v)
-                    if not a.startswith("stored"):
+                    if not a.startswith("stored") or not base.double_exact(v):
                         v = conv_values(rng, dfn, sec, key)
             else:
                 v = container_values(rng) if sec == "user" else conv_values(rng, dfn, sec, key)
@@ -579,6 +586,10 @@ def random_float(rng):
 
 def float_close(a, x):
     """what `{:.12f}` guarantees: 12 decimals, i.e. |loaded - x| <= 0.5e-12 (plus half an ulp)"""
+    if a != a or x != x:
+        return a != a and x != x        # NaN is carried as NaN
+    if a == x:
+        return True                     # includes the infinities and the signed zeros
     return abs(a - x) <= 0.5e-12 + abs(x) * 2.0 ** -52
 
 
@@ -641,7 +652,11 @@ def text_roundtrip(ctx, entries, idx):
             else:
                 raw_text = file_text(p1, sec, key)
                 if raw_text is not None and sec != "user":
-                    model.append((sec, key, raw_text, b))
+                    if isinstance(b, float) and (b != b or abs(b) == float("inf")):
+                        # no decimal to round: compared as a tagged value
+                        model.append((sec, key, raw_text, "stored " + base.enc_safe(b)))
+                    else:
+                        model.append((sec, key, raw_text, b))
             continue
         rendering = "{}".format(w)
         t = base.clean_text(rendering)
@@ -675,6 +690,13 @@ def part_text(ctx, lines, checks, spec_fail):
         keys = rng.sample(TEXT_KEYS, rng.randint(2, 6))
         entries = [(s, k, random_text(rng)) for s, k in keys]
         entries += [(s, k, random_float(rng)) for s, k in rng.sample(FLOAT_KEYS, 3)]
+        if rng.random() < 0.4:
+            # non-finite floats, signed zero, a subnormal, the largest double: written as
+            # 'nan' / 'inf' / 12 decimals and read back
+            s_, k_ = rng.choice(FLOAT_KEYS)
+            entries = [e for e in entries if (e[0], e[1]) != (s_, k_)]
+            entries.append((s_, k_, rng.choice([base.NAN, base.INF, -base.INF, -0.0, base.TINY,
+                                                base.HUGE, -base.HUGE])))
         entries += [(s, k, rng.choice([1, -1]) * rng.randint(0, 10 ** rng.randint(1, 15)))
                     for s, k in rng.sample(INT_KEYS, 2)]
         fails, model = text_roundtrip(ctx, entries, i)
@@ -744,8 +766,11 @@ def gen_source_case(rng, dfn):
             v = None
         elif r < 0.6 and key.lower() in table:
             v = base.good_value(rng, dfn, sec, key.lower())
-            if rng.random() < 0.5 and not isinstance(v, (str, bytes, list, tuple, np.ndarray)):
-                v = str(v)      # needs the converter
+            short = not isinstance(v, (float, np.floating)) or v != v \
+                or abs(v) == float("inf") or v == 0 or 1e-6 < abs(v) < 1e15
+            if rng.random() < 0.5 and short and \
+                    not isinstance(v, (str, bytes, list, tuple, np.ndarray)):
+                v = str(v)      # needs the converter (decimals the model reads exactly)
         else:
             R = base.representations(rng)
             v = R[rng.choice(list(R))]
